@@ -359,12 +359,25 @@ theorem opens0_newSpecialSymbol (sh : Shared D L) (sym : Sym) : Opens0 (newSpeci
   · exact opens0_panic _
   · exact opens0_fuel
 
+theorem opens0_openSymbol (sh : Shared D L) : Opens0 (openSymbol env sh) := by
+  intro sh' s h
+  obtain ⟨_, h1 | h1⟩ := openSymbol_cases env h
+  · injection h1 with h1; injection h1 with h1; subst h1; rfl
+  · cases h1
+
+/-- an ignored request opens nothing -/
+theorem opens0_openSpecialSymbol (sh : Shared D L) (sym : Sym) : Opens0 (openSpecialSymbol env sh sym) := by
+  intro sh' s h
+  rcases openSpecialSymbol_cases env h with ⟨h1, _⟩ | ⟨h1, _⟩
+  · exact opens0_newSpecialSymbol sh sym sh' s h1
+  · cases h1
+
 theorem opens0_startSelecting (sh : Shared D L) : Opens0 (startSelecting env sh) := by
   unfold startSelecting
   repeat' split
   all_goals first
     | exact opens0_openPhrase env _
-    | exact opens0_newSpecialSymbol _ _
+    | exact opens0_openSpecialSymbol env _ _
     | opens0_leaf
 
 theorem opens0_startSelectingOrInputSpace (sh : Shared D L) : Opens0 (startSelectingOrInputSpace env sh) := by
@@ -372,7 +385,7 @@ theorem opens0_startSelectingOrInputSpace (sh : Shared D L) : Opens0 (startSelec
   repeat' split
   all_goals first
     | exact opens0_openPhrase env _
-    | exact opens0_newSpecialSymbol _ _
+    | exact opens0_openSpecialSymbol env _ _
     | opens0_leaf
 
 theorem opens0_learnTrans (r : Outcome (Shared D L × Bool)) : Opens0 (learnTrans r) := by
@@ -389,6 +402,7 @@ theorem opens0_enteringDefault (sh : Shared D L) (ev : KeyEvent) : Opens0 (enter
     | exact opens0_withCom_absorb _ _
     | exact opens0_inputChar _ _
     | exact opens0_chineseFallback _ _
+    | exact opens0_openSymbol env _
     | opens0_leaf
 
 theorem opens0_enteringBackspace (sh : Shared D L) : Opens0 (enteringBackspace sh) := by
@@ -402,6 +416,7 @@ theorem opens0_enteringCtrlDigit (sh : Shared D L) (c : Nat) : Opens0 (enteringC
   repeat' (first | split | (dsimp only; split))
   all_goals first
     | exact opens0_learnTrans _
+    | exact opens0_openSymbol env _
     | opens0_leaf
 
 theorem opens0_enteringTabInside (sh : Shared D L) : Opens0 (enteringTabInside env sh) := by
@@ -942,11 +957,12 @@ theorem choose_symbol_leaf {s : Selecting} {sh : Shared D L} {y : SymSel} {c : N
   simp only [Option.map, Outcome.map]
   first | rfl | (cases s.action <;> rfl)
 
-/-- **symbol table, top level, a category with a sub-table**: the list stays open, shows that
-    sub-table from page 0, and the buffer is untouched -/
+/-- **symbol table, top level, a category with a sub-table** that holds symbols: the list stays open, shows
+    that sub-table from page 0, and the buffer is untouched -/
 theorem choose_symbol_descend {s : Selecting} {sh : Shared D L} {y : SymSel} {n : Nat} {name : Text} {idx : Nat}
-    (hsel : s.sel = .symbol y) (hcur : y.cursor = none)
-    (hcat : y.category[Selecting.offset s sh n]? = some (name, some idx)) :
+    {row : Text} (hsel : s.sel = .symbol y) (hcur : y.cursor = none)
+    (hcat : y.category[Selecting.offset s sh n]? = some (name, some idx))
+    (hrow : y.table[idx % 256]? = some row) (hne : row ≠ []) :
     Selecting.select env s sh n =
       .ok ({ s with sel := .symbol { y with cursor := some (idx % 256) }, pageNo := 0 }, sh, .spin .absorb) := by
   have hmenu : y.menu = .ok (y.category.map (·.1)) := by unfold SymSel.menu; simp only [hcur]
@@ -957,6 +973,30 @@ theorem choose_symbol_descend {s : Selecting} {sh : Shared D L} {y : SymSel} {n 
   unfold Selecting.select
   simp only [Selecting.candidates, hsel, hmenu, List.length_map, SymSel.select, hcur, hcat]
   rw [if_neg (by omega)]
+  simp only [SymSel.menu, hrow]
+  cases row with
+  | nil => exact absurd rfl hne
+  | cons c cs => rfl
+
+/-- **symbol table, top level, a category WITHOUT symbols** (FX1 repair): nothing to list — the list is
+    closed, the saved cursor restored, nothing inserted -/
+theorem choose_symbol_empty_category {s : Selecting} {sh : Shared D L} {y : SymSel} {n : Nat} {name : Text} {idx : Nat}
+    (hsel : s.sel = .symbol y) (hcur : y.cursor = none)
+    (hcat : y.category[Selecting.offset s sh n]? = some (name, some idx))
+    (hrow : y.table[idx % 256]? = some []) :
+    Selecting.select env s sh n =
+      .ok ({ s with sel := .symbol { y with cursor := some (idx % 256) }, pageNo := 0 },
+           Shared.cancelSelecting sh, .toState .entering) := by
+  have hmenu : y.menu = .ok (y.category.map (·.1)) := by unfold SymSel.menu; simp only [hcur]
+  have hin : Selecting.offset s sh n < y.category.length := by
+    rcases Nat.lt_or_ge (Selecting.offset s sh n) y.category.length with h | h
+    · exact h
+    · rw [List.getElem?_eq_none h] at hcat; cases hcat
+  unfold Selecting.select
+  simp only [Selecting.candidates, hsel, hmenu, List.length_map, SymSel.select, hcur, hcat]
+  rw [if_neg (by omega)]
+  simp only [SymSel.menu, hrow]
+  rfl
 
 /-- **symbol table, top level, a plain entry**: its first character is placed -/
 theorem choose_symbol_plain {s : Selecting} {sh : Shared D L} {y : SymSel} {n : Nat} {name : Text} {ch : Nat}
